@@ -149,7 +149,7 @@ pub struct Worker {
     pub base: Option<Base>,
 }
 
-fn create_client_via_storage(s: &mut SymSut, c: Cid) -> Result<(), String> {
+pub(crate) fn create_client_via_storage(s: &mut SymSut, c: Cid) -> Result<(), String> {
     let cu = s.cuuid(c);
     let st = s.sut.storage().clone();
     let r = std::panic::catch_unwind(std::panic::AssertUnwindSafe(|| -> anyhow::Result<()> {
@@ -783,6 +783,35 @@ impl Worker {
                     }
                 }
             }
+            // -- C02: an AddVersion whose body transfer breaks off after a first piece was not
+            //    submitted: it must not be accepted with what happened to arrive, and it changes
+            //    nothing (HTTP entry; parent = latest, the case that would otherwise be accepted)
+            if http && self.mon("C02") {
+                for c in 0..alphabet.n_clients {
+                    let latest = node.model.client(c).map(|cl| cl.latest()).unwrap_or(NIL);
+                    let cu = self.suts[i].cuuid(c);
+                    let pu = self.suts[i].tab.uuid(latest);
+                    let req = crate::sut::Req::AddVersion { c: cu, parent: pu, data: b"broken-off-upload".to_vec() };
+                    let mut hr = crate::sut::http_req_for(&req, 1);
+                    hr.body = crate::http::Body::ThenError(vec![b"broken-".to_vec(), b"off".to_vec()]);
+                    stats.probes += 1;
+                    stats.eval("C02");
+                    let r = self.suts[i].sut.send_http(&hr);
+                    let accepted = matches!(&r, Ok(raw) if (200..300).contains(&raw.status));
+                    let after = self.suts[i].dump_fast();
+                    let changed = after.clients != sts[i].dump.clients || after.versions != sts[i].dump.versions;
+                    if accepted || changed {
+                        find!("C02", i, "broken-off-upload", Some(format!("AddVersion({},latest) with the body transfer failing after 10 bytes", (b'A' + c) as char)),
+                            "an upload whose transfer failed was {} (answer {}){}",
+                            if accepted { "accepted" } else { "not acknowledged" },
+                            r.as_ref().map(|x| x.status.to_string()).unwrap_or_else(|e| format!("error {e}")),
+                            if changed { "; the stored state changed" } else { "" });
+                    }
+                    if changed {
+                        self.restore(i, node, &mut sts[i]);
+                    }
+                }
+            }
             // -- C12(b): the stored counter equals the number of versions accepted since the
             //    snapshot was stored (model's count)
             if self.mon("C12") {
@@ -1361,7 +1390,7 @@ fn spec_from_name(n: &str) -> Option<SutSpec> {
 pub fn params_to_json(p: &SeqParams) -> Value {
     json!({
         "n_clients": p.alphabet.n_clients, "anc_max": p.alphabet.anc_max, "foreign": p.alphabet.foreign,
-        "dup": p.alphabet.dup_payload, "big": p.alphabet.big_payload, "snapshots": p.alphabet.snapshots, "ages": p.alphabet.ages,
+        "dup": p.alphabet.dup_payload, "big": p.alphabet.big_payload, "huge": p.alphabet.huge_payload, "snapshots": p.alphabet.snapshots, "ages": p.alphabet.ages,
         "days": p.cfg.days, "versions": p.cfg.versions,
         "specs": p.specs.iter().map(|s| s.name()).collect::<Vec<_>>(),
         "max_depth": p.max_depth, "unmerged_depth": p.unmerged_depth, "monitors": p.monitors,
@@ -1380,6 +1409,7 @@ pub fn params_from_json(v: &Value) -> SeqParams {
             snapshots: v["snapshots"].as_bool().unwrap(),
             ages: v["ages"].as_array().unwrap().iter().map(|x| x.as_i64().unwrap()).collect(),
             big_payload: v["big"].as_bool().unwrap_or(false),
+            huge_payload: v["huge"].as_bool().unwrap_or(false),
         },
         cfg: Config { days: v["days"].as_i64().unwrap(), versions: v["versions"].as_u64().unwrap() as u32 },
         specs: v["specs"].as_array().unwrap().iter().filter_map(|x| spec_from_name(x.as_str().unwrap())).collect(),
